@@ -276,10 +276,20 @@ func CompareCompound(c Compound, t Term, env *Env) int {
 			return o
 		}
 
-		for i := 0; i < c.Arity(); i++ {
-			if o := c.Arg(i).Compare(t.Arg(i), env); o != 0 {
-				return o
+		// The last arguments go in a loop instead of a recursion: a list is nested as deep as it's long, and a few
+		// million elements would overflow the Go stack, which is fatal.
+		for c.Arity() > 0 {
+			for i := 0; i < c.Arity()-1; i++ {
+				if o := c.Arg(i).Compare(t.Arg(i), env); o != 0 {
+					return o
+				}
 			}
+			lc, okc := env.Resolve(c.Arg(c.Arity() - 1)).(Compound)
+			lt, okt := env.Resolve(t.Arg(t.Arity() - 1)).(Compound)
+			if !okc || !okt || lc.Arity() != lt.Arity() || lc.Functor() != lt.Functor() {
+				return c.Arg(c.Arity()-1).Compare(t.Arg(t.Arity()-1), env)
+			}
+			c, t = lc, lt
 		}
 		return 0
 	default:
